@@ -389,9 +389,13 @@ func (x *Exec) applyContract(p *Path, site ssa.Instruction, fc *FuncContract, ca
 	}
 	for _, h := range fc.Holds {
 		// the lock named h (in callee terms) must be held by the caller
-		if !x.lockHeldForCallee(p, vars, h, fc.Pkg) {
+		held := x.lockModeForCallee(p, vars, h, fc.Pkg)
+		switch {
+		case held == "":
 			x.oblige(p, "call["+cname+"]:holds", h, "false", []string{"C09"}, "caller must hold "+h)
-		} else {
+		case held == "r" && !fc.HoldsRead[h]:
+			x.oblige(p, "call["+cname+"]:holds", h, "false", []string{"C09"}, "caller holds "+h+" in read mode only; the callee's contract asks for exclusive mode (holds, not holds_read)")
+		default:
 			x.oblige(p, "call["+cname+"]:holds", h, "true", []string{"C09"}, "caller must hold "+h)
 		}
 	}
@@ -1262,7 +1266,7 @@ func (x *Exec) release(p *Path, own Owner, label, mode string) {
 	p.trace = append(p.trace, "unlock:"+label)
 }
 
-func (x *Exec) assumeHeld(p *Path, label string) {
+func (x *Exec) assumeHeld(p *Path, label string, mode string) {
 	// label like "r.mutex": resolve against parameters
 	ex, err := ParseExpr(label)
 	if err != nil {
@@ -1280,7 +1284,7 @@ func (x *Exec) assumeHeld(p *Path, label string) {
 			// type-level: some lock T.mu is held
 			if t := ctx.resolveType(id.Name); t != nil {
 				own := Owner{Obj: "?", TKey: typeKey(t), Field: s.F}
-				p.locks[lockKey(own, label)] = "w"
+				p.locks[lockKey(own, label)] = mode
 				return
 			}
 		}
@@ -1298,18 +1302,29 @@ func (x *Exec) assumeHeld(p *Path, label string) {
 		return
 	}
 	own := Owner{Obj: base.S, TKey: typeKey(base.T), Field: s.F}
-	p.locks[lockKey(own, label)] = "w"
+	p.locks[lockKey(own, label)] = mode
 	// the lock invariant is NOT assumed: a helper may be called in the middle of a critical section
 }
 
 func (x *Exec) lockHeldForCallee(p *Path, vars map[string]Val, label, pkg string) bool {
+	return x.lockModeForCallee(p, vars, label, pkg) != ""
+}
+
+// lockModeForCallee: "" (not held), "r" or "w": the strongest mode in which the caller holds the lock the callee names.
+func (x *Exec) lockModeForCallee(p *Path, vars map[string]Val, label, pkg string) string {
 	ex, err := ParseExpr(label)
 	if err != nil {
-		return false
+		return ""
 	}
 	s, ok := ex.(*ESel)
 	if !ok {
-		return false
+		return ""
+	}
+	best := ""
+	upd := func(m string) {
+		if m == "w" || best == "" {
+			best = m
+		}
 	}
 	ctx := x.evalCtx(p, vars)
 	ctx.pkg = pkg
@@ -1318,13 +1333,13 @@ func (x *Exec) lockHeldForCallee(p *Path, vars map[string]Val, label, pkg string
 		if _, isVar := ctx.lookup(id.Name); !isVar {
 			if t := ctx.resolveType(id.Name); t != nil {
 				want := typeKey(t) + "." + s.F
-				for k := range p.locks {
+				for k, m := range p.locks {
 					parts := strings.Split(k, "\x00")
 					if len(parts) == 3 && parts[1] == want {
-						return true
+						upd(m)
 					}
 				}
-				return false
+				return best
 			}
 		}
 	}
@@ -1339,16 +1354,16 @@ func (x *Exec) lockHeldForCallee(p *Path, vars map[string]Val, label, pkg string
 		base = ctx.eval(s.X)
 	}()
 	if !okEval || base.T == nil {
-		return false
+		return ""
 	}
 	prefix := base.S + "\x00" + typeKey(base.T) + "." + s.F + "\x00"
 	anyObj := "?\x00" + typeKey(base.T) + "." + s.F + "\x00" // type-level `holds T.mu` of the enclosing function
-	for k := range p.locks {
+	for k, m := range p.locks {
 		if strings.HasPrefix(k, prefix) || strings.HasPrefix(k, anyObj) {
-			return true
+			upd(m)
 		}
 	}
-	return false
+	return best
 }
 
 // interfere: other threads may run critical sections of this lock before the callee gets it.
